@@ -67,7 +67,7 @@ import (
 type KV [2]string
 
 type BodyGen struct {
-	Kind  string `json:"kind"`  // "prom_big": snappy(WriteRequest with one label value of Bytes 'a's)
+	Kind  string `json:"kind"`  // "prom_big": snappy(WriteRequest with one label value of Bytes 'a's); "gzip_loki_line", "gzip_fill"
 	Bytes int    `json:"bytes"` // size parameter
 }
 
@@ -439,6 +439,11 @@ func (c *Case) body(r *rand.Rand) []byte {
 		switch c.Req.BodyGen.Kind {
 		case "prom_big":
 			return snappy.Encode(nil, promBody(rand.New(rand.NewSource(1)), c.Req.BodyGen.Bytes))
+		case "gzip_loki_line":
+			// gzip of a well-formed Loki JSON push whose single line is Bytes times 'a' (compresses about 1000:1)
+			return gz([]byte(`{"streams":[{"stream":{"app":"a"},"values":[["1700000000000000000","` + strings.Repeat("a", c.Req.BodyGen.Bytes) + `"]]}]}`))
+		case "gzip_fill":
+			return gz(bytes.Repeat([]byte{'a'}, c.Req.BodyGen.Bytes))
 		}
 		panic("unknown body_gen")
 	}
